@@ -31,10 +31,12 @@ def run(ctx):
     stats = {}
     corpus = L.load_corpus(PID)
     L.evaluate(ctx, PID, corpus, stats)
-    target = ctx.n(700, 20000)
+    target = ctx.n(4500, 60000)
     done = 0
-    while done < target and not ctx.out_of_time():
-        batch = [L.gen_case(ctx.rng) for _ in range(48)]
+    import time
+    soft = L.soft_deadline(ctx)
+    while done < target and not ctx.out_of_time() and time.time() < soft:
+        batch = [L.gen_case(ctx.rng) for _ in range(96)]
         L.evaluate(ctx, PID, batch, stats)
         done += sum(len(c["history"]) for c in batch)
     if ctx.tier == "thorough":
